@@ -113,6 +113,22 @@ def _wrap(orig):
                         orig(self, net, *[_fresh(c, ph == 'warm-other') for c in coordinates])
                     except Exception:
                         pass
+            if _concrete(coordinates) and isinstance(net, torch.nn.Module):
+                # the same coordinate OBJECTS with another state of the same network object (its weights changed in between, as
+                # after more training): a forward pass cached per (network, coordinates) objects would now be stale
+                STATE['phase'] = 'warm-netchange'
+                ps = [p for p in net.parameters()]
+                try:
+                    with torch.no_grad():
+                        for p in ps:
+                            p.add_(0.173)
+                    orig(self, net, *coordinates)
+                except Exception:
+                    pass
+                finally:
+                    with torch.no_grad():
+                        for p in ps:
+                            p.sub_(0.173)
             STATE['phase'] = 'real'
             out = orig(self, net, *coordinates)
             if _concrete(coordinates) and torch.is_tensor(out) and len(FAILS) < 20:
@@ -128,6 +144,21 @@ def _wrap(orig):
                                           parameters={k: v for k, v in self.__dict__.items() if isinstance(v, (int, float))},
                                           coordinates=[c.detach().reshape(-1).tolist() for c in coordinates],
                                           with_grad=out.detach().reshape(-1).tolist()[:8], without_grad=alt.detach().reshape(-1).tolist()[:8]))
+                    # a network that overwrites its input batch (in-place normalisation): the batch handed to the network is private
+                    # to enforce(), so the coordinates the condition itself reads are untouched
+                    STATE['phase'] = 'destroy-input'
+
+                    def eater(x, _net=net):
+                        y = _net(x.clone())
+                        with torch.no_grad():
+                            x.mul_(0).add_(7.5)
+                        return y
+                    alt2 = orig(self, eater, *coordinates)
+                    if alt2.shape != out.shape or not torch.allclose(alt2.detach(), out.detach(), rtol=1e-12, atol=1e-12 * scale):
+                        FAILS.append(dict(condition=type(self).__name__, violated='a network that overwrites its input batch in place changes what '
+                                          'the condition computes (the condition reads the coordinates back from the network\'s input)',
+                                          parameters={k: v for k, v in self.__dict__.items() if isinstance(v, (int, float))},
+                                          normal=out.detach().reshape(-1).tolist()[:8], with_input_overwritten=alt2.detach().reshape(-1).tolist()[:8]))
                 except Exception as e:
                     FAILS.append(dict(condition=type(self).__name__, violated='enforce() raises on coordinates that do not require grad',
                                       error=f'{type(e).__name__}: {e}'))
